@@ -87,7 +87,64 @@ def plan_C03(tier, seed):
         assumptions=["TLC", "net/url parsing of the generated URI texts", "harness Loader logs every call"])
 
 
-PLANS = {"C03": plan_C03, "C06": plan_C06, "C01": plan_C01, "C02": plan_C02, "C07": plan_C07}
+REP_C = {"DEV_EqualKindStrict": "FALSE", "DEV_NumberEqualsString": "FALSE", "DEV_JsonNumberIsString": "FALSE"}
+
+
+def rep_job(prefix, fam, k, inv, workers=6):
+    c = dict(REP_C)
+    c.update({"Family": q(fam), "K": k})
+    return tlc("%s_%s_k%d" % (prefix, fam, k), "MC_Reps", c, inv + ["Emit"], workers=workers)
+
+
+def plan_C11(tier, seed):
+    k = 1 if tier == "quick" else 2
+    j = rep_job("c11", "EQ", k, ["EqualRefines", "ClassRefines"], workers=8)
+    return dict(
+        tlc=[j], parallel=1,
+        replay=[dict(name="c11_replay", family="equal", inputs=[j["name"]])],
+        rule="x ranges over every Go representation (numeric kind per leaf, []any/[]T/[n]T, map[string]any/map[string]T/"
+             "map[K]any, pointer and *any wrappers, defined types) of a pool of plain JSON values; each case is the row "
+             "Equal(x, y) for all y of the same pool, both argument orders; the expected row is SameJSON = equality of "
+             "denotations, cross-checked by an independent canonical form; non-trivial = the row contains both outcomes; "
+             "distinct by the Go value of x",
+        exhaustive=True,
+        assumptions=["TLC", "pools.py number tables", "harness construction of represented values via reflect"])
+
+
+def plan_C12(tier, seed):
+    k = 1 if tier == "quick" else 2
+    ua = rep_job("c12", "UA", k, [], workers=8)
+    hu = rep_job("c12", "HU", 1, ["HashTheorem"], workers=4)
+    eq = rep_job("c12", "EQ", 1, ["EqualRefines"], workers=6)
+    return dict(
+        tlc=[ua, hu, eq], parallel=3,
+        replay=[dict(name="c12_uarr", family="uarr", inputs=[ua["name"], hu["name"]]),
+                dict(name="c12_hashlaw", family="equal", inputs=[eq["name"]])],
+        rule="UA: arrays (length 0..2, thorough 0..3, plus length 5) over elements of all JSON types in every mixed "
+             "representation x the schemas uniqueItems / enum / const / items-enum; each verdict taken 8 times (fresh hash "
+             "seed per call) and compared with the pairwise-SameJSON definition. HU: TLC proves that for every hash function "
+             "satisfying Equal => same hash the bucket scan equals the pairwise verdict. EQ: the law itself is checked on the "
+             "real hashValue (hook VerifHash) for all SameJSON pairs under 4 seeds. Non-trivial = case has both verdicts.",
+        exhaustive=True,
+        assumptions=["TLC", "harness construction of represented values via reflect", "hook VerifHash wraps hashValue"])
+
+
+def plan_C08(tier, seed):
+    k = 1 if tier == "quick" else 2
+    j = rep_job("c08", "RV", k, [], workers=8)
+    eq = rep_job("c08", "EQ", 1, ["ClassRefines"], workers=6)
+    return dict(
+        tlc=[j, eq], parallel=2,
+        replay=[dict(name="c08_replay", family="repval", inputs=[j["name"]])],
+        rule="a pool of schemas touching every keyword group x every exact Go representation of a pool of JSON values; "
+             "expected verdict = L0 verdict of the denoted JSON value (which is also compared with the verdict of the "
+             "canonical encoding/json decoding); TLC also checks that the code's classification (jsonType, string-keyword "
+             "guard) is representation independent; non-trivial = the schema has both verdicts over the pool",
+        exhaustive=True,
+        assumptions=["TLC", "harness construction of represented values via reflect", "encoding/json as the canonical decoder"])
+
+
+PLANS = {"C08": plan_C08, "C11": plan_C11, "C12": plan_C12, "C03": plan_C03, "C06": plan_C06, "C01": plan_C01, "C02": plan_C02, "C07": plan_C07}
 
 
 def plan(prop, tier, seed):
